@@ -339,6 +339,16 @@ def large_programs():
     P.append(("matmul(8,4096)x(4096,4)", lambda x: x @ jnp.full((4096, 4), 0.001, x.dtype), [(8, 4096)]))
     P.append(("dot(32768)", lambda x: jnp.dot(x, x), [(32768,)]))
     P.append(("einsum_large", lambda x: jnp.einsum("ij,ij->", x, x), [(256, 128)]))
+    # float literals that are not representable in float32: every construct that materialises them must do so in double
+    P.append(("lit_arange_step0.1", lambda x: jnp.arange(0.05, 2.0, 0.1) * x[0], [(3,)]))
+    P.append(("lit_arange_neg_step", lambda x: jnp.arange(1.5, -1.0, -0.7) + x[0], [(3,)]))
+    P.append(("lit_linspace", lambda x: jnp.linspace(0.05, 1.95, 7) * x[0], [(3,)]))
+    P.append(("lit_full", lambda x: jnp.full((4,), 0.1) * x[0] + jnp.full_like(x[:1], 0.3), [(3,)]))
+    P.append(("lit_array", lambda x: jnp.array([0.1, 0.2, 0.7]) * x + jnp.asarray(0.3), [(3,)]))
+    P.append(("lit_where_scalar", lambda x: jnp.where(x > 0, x * 0.1, 0.7), [(3,)]))
+    P.append(("lit_clip_bounds", lambda x: jnp.clip(x, -0.1, 0.3), [(3,)]))
+    P.append(("lit_pad_value", lambda x: jnp.pad(x, (1, 1), constant_values=0.1), [(3,)]))
+    P.append(("lit_power", lambda x: jnp.power(jnp.abs(x) + 0.1, 0.3), [(3,)]))
     return P
 
 
